@@ -25,7 +25,7 @@ GEN = ['DtypeNames', 'FileNames', 'Headers']
 RULE = ('each case = a generated dataset written to disk (1.1 for the load path, 1.0 for the upgrade path), then one text field '
         '(file, row, column drawn uniformly over all text files incl. descriptor files and the version line) replaced by a string '
         'from a pool of ~30 payloads (side-effect expressions with a canary, path traversals, absolute paths, numbers, empty, '
-        'unicode, version lines, long strings); distinct non-trivial = distinct (file, column, payload class) reached')
+        'unicode, version lines, long strings); plus datasets with 5000 (thorough: up to 66000) image records; distinct non-trivial = distinct (file, column, payload class) reached')
 ASSUMPTIONS = [
     'that the interpreter does nothing else is OBSERVED through audit events (open, compile, exec, import, os.system, '
     'subprocess.Popen, socket.*, os.remove, os.rename, shutil.move, os.mkdir ...), not proved',
@@ -129,6 +129,16 @@ def gen_case(rng):
 def cases(rng, tier):
     n = 220 if tier == 'quick' else 5000
     out = [gen_case(rng) for _ in range(n)]
+    # size is part of "however the directory is made": datasets with thousands of image records (a benign payload)
+    for nbig in ([5000] if tier == 'quick' else [1000, 5000, 20000, 66000]):
+        o = kgen.Opts(p_part=0.8, id_pool=3, fancy_ids=False, ts_style='small', max_rows=3, image_pool=4, dtypes=['float32'],
+                      force_parts={'records_camera', 'keypoints', 'descriptors', 'global_features'})
+        for _ in range(200):
+            dbig = kgen.gen_dataset(rng, o)
+            if dbig['records_camera'] and dbig['keypoints']:
+                break
+        out.append({'path': 'load', 'd': dbig, 'pick': rng.randrange(10 ** 6), 'payload': '7', 'pclass': 'number',
+                    'dtype_only': False, 'big': nbig})
     out.append({'path': 'dtype', 'names': [p for _, p in PAYLOADS] + ['float16', 'int8', 'uint64', 'double', 'np.int', 'bool_', 'float32 ',
                                                                        ' float32', 'FLOAT32', 'generic', 'number', 'float_', 'longdouble']})
     return out
@@ -249,7 +259,15 @@ def run_real(case):
                 kapture_from_dir(root)
             except Exception:
                 pass
-            where = mutate_field(root, case, canary)
+            if case.get('big'):
+                rc = os.path.join(root, 'sensors', 'records_camera.txt')
+                rows = [l for l in open(rc).read().split('\n') if l.strip() and not l.startswith('#')]
+                if rows:
+                    dev = rows[0].split(',')[1].strip()
+                    with open(rc, 'a') as f:
+                        f.write('\n' + '\n'.join(f'{10 ** 7 + i}, {dev}, big/{i // 100:03d}/{i:06d}.jpg' for i in range(case['big'])) + '\n')
+            # the large datasets are loaded as they are (no crafted field): the question is what loading them does
+            where = mutate_field(root, case, canary) if not case.get('big') else ('sensors/records_camera.txt', 0, -1, False)
             present = text_files(root)
             first = open(os.path.join(root, 'sensors', 'sensors.txt')).readline()
             import re
